@@ -479,6 +479,28 @@ def check(mod, tier, base, nworkers, n_override=None):
                 printed_known.add(k["signature_re"])
                 print(f"KNOWN-FINDING: property={mod.PROP_ID} {k['what']} "
                       f"[{sig}; {count} runs, first seed {seed}]")
+                kp = os.path.join(VERIF, k.get("replay") or "")
+                if os.environ.get("VERIF_KEEP_KNOWN") and k.get("replay") \
+                        and not os.path.exists(kp):
+                    # (maintenance, never part of a registered command: write
+                    # the replay file a recorded finding refers to)
+                    pinned = pin_trace(mod, mod.gen_plan(seed, tier), sig)
+                    if pinned is not None:
+                        small, nruns = minimise(
+                            mod, pinned, sig,
+                            budget=getattr(mod, "MIN_BUDGET", 300))
+                        with open(kp, "w") as f:
+                            json.dump({"property": mod.PROP_ID,
+                                       "signature": sig, "seed": seed,
+                                       "tier": tier, "detail": detail,
+                                       "pythonhashseed": os.environ.get(
+                                           "PYTHONHASHSEED"),
+                                       "minimise_runs": nruns,
+                                       "occurrences": count, "plan": small},
+                                      f, indent=1, sort_keys=True,
+                                      default=str)
+                            f.write("\n")
+                        print(f"  (kept replay {kp})")
             continue
         nviol += 1
         handled += 1
